@@ -1613,6 +1613,17 @@ class IndexHierarchy(IndexBase):
             if levels.targets is None: # fall back to 1D index
                 return levels.index.rename(name)
 
+            # removing leaves changes the length of every sub-tree: recalculate offsets
+            levels_stack = [levels]
+            while levels_stack:
+                level = levels_stack.pop()
+                offset = 0
+                for target in level.targets: #type: ignore
+                    target.offset = offset
+                    offset += target.__len__()
+                    if target.targets is not None:
+                        levels_stack.append(target)
+
             # if we have TypeBlocks and levels is the same length
             if not self._recache and levels.__len__() == self.__len__():
                 blocks = self._blocks.iloc[NULL_SLICE, :count]
@@ -1631,7 +1642,10 @@ class IndexHierarchy(IndexBase):
                 for target in levels.targets: #type: ignore
                     labels.extend(target.index)
                     if target.targets is not None:
-                        targets.extend(target.targets)
+                        for t in target.targets:
+                            # offsets were relative to the dropped parent; make them relative to the new root
+                            t.offset += target.offset
+                            targets.append(t)
                 index = levels.index.__class__(labels)
                 if not targets:
                     return index.rename(name)
